@@ -54,6 +54,15 @@ def generate(rng, i, tier):
         sc["strategies"].append(st)
         common.agentgen.add_script(rng, sc, st, mix)
     sc["middlewares"] = [{"name": "mw%d" % k} for k in range(rng.choice([0, 0, 1, 2]))]
+    if rng.random() < 0.06:
+        # an order for a runner that is not part of the market (a strategy slip), guarded by a market version the market
+        # never has: it lapses at placement, stays in the blotter, and must not disturb the closure of the other orders
+        m = sc["markets"][rng.randrange(n_markets)]
+        for u in m["updates"]:
+            if u["st"] == "OPEN":
+                u.setdefault("acts", {}).setdefault("S0", []).insert(0, {"op": "place", "sel": 999, "side": "BACK", "type": "LIMIT", "price": 3.0, "size": 2.0, "persistence": "LAPSE", "mv": -1})
+                sc["ghost_order"] = True
+                break
     return sc
 
 
